@@ -511,10 +511,14 @@ func canReach(to *ssa.BasicBlock) map[*ssa.BasicBlock]bool {
 // testedAgain: is it worth remembering what a branch said about v? Only if v takes part in another test or
 // flows into a φ (through which a later test may see it); a fact nobody can use would only keep otherwise
 // equal states apart.
-func testedAgain(v ssa.Value) bool {
+func testedAgain(v ssa.Value) bool { return testUses(v, 0) >= 2 }
+
+// testUses counts the tests, φ-nodes and local cells v flows into; a negation counts for what it flows into
+// (`c := !flag; if c { c = f() }; if c {…}`: the flag is tested once and merged once, both through the negation).
+func testUses(v ssa.Value, depth int) int {
 	refs := v.Referrers()
 	if refs == nil {
-		return false
+		return 0
 	}
 	n := 0
 	for _, r := range *refs {
@@ -527,7 +531,11 @@ func testedAgain(v ssa.Value) bool {
 			}
 		case *ssa.UnOp:
 			if x.Op == token.NOT {
-				n++
+				if k := testUses(x, depth+1); depth < 3 && k > 1 {
+					n += k
+				} else {
+					n++
+				}
 			}
 		case *ssa.Store:
 			if _, isAl := x.Addr.(*ssa.Alloc); isAl {
@@ -535,7 +543,7 @@ func testedAgain(v ssa.Value) bool {
 			}
 		}
 	}
-	return n >= 2
+	return n
 }
 
 // NeverNil: v is, by construction, not nil — a fresh allocation, an interface made from one, or the result of a
